@@ -158,6 +158,20 @@ Definition member_is_piece (sc : scene) nodes rawways (m : bool * Z * role) (p :
       negb t && line_eqb ls (piece_line ring p)
   end.
 
+(* the containment hypothesis of theorems 7 / 8 ([Geo.Build.contained]), evaluated: some vertex
+   of every hole has an odd crossing number w.r.t. its own outer, none w.r.t. any other outer *)
+Definition contained_b (sc : scene) : bool :=
+  forallb (fun ip : nat * gt_polygon =>
+     let '(i, p) := ip in
+     forallb (fun h =>
+        existsb (point_in_ring (close_ring (gp_outer p))) h &&
+        forallb (fun jq : nat * gt_polygon =>
+           let '(j, q) := jq in
+           Nat.eqb i j || negb (existsb (point_in_ring (close_ring (gp_outer q))) h))
+          (combine (seq 0 (length sc)) sc))
+       (gp_holes p))
+    (combine (seq 0 (length sc)) sc).
+
 Fixpoint forallb2 {A B} (f : A -> B -> bool) (la : list A) (lb : list B) : bool :=
   match la, lb with
   | [], [] => true
@@ -179,7 +193,7 @@ Definition check_scene : P (list Z) :=
       let exp := expected_orients sc ps in
       let j2 := forallb (run_spec_ok sc) runs
                 && forallb (fun a => let '(_, ok, oout) := a in ok && zlist_eqb oout exp) annots in
-      let j3 := scene_ok sc && valid_cuts sc ps
+      let j3 := scene_ok sc && contained_b sc && valid_cuts sc ps
                 && forallb2 (member_is_piece sc nodes rawways) rawmems ps
                 && forallb (fun r => truthful_or_none (run_orients r) exp) runs in
       (* annotate.Relations must write truthful orientations whatever the members carried
@@ -245,7 +259,7 @@ Definition check_multi : P (list Z) :=
   let j2 := forallb (fun r => let '(_, _, _, obs) := r in
               forallb2 (fun rel ob => let '(sc, _, _) := rel in run_spec_ok sc (as_run r ob)) rels obs) runs in
   let j3 := forallb (fun rel => let '(sc, ps, ms) := rel in
-              scene_ok sc && valid_cuts sc ps && forallb2 (member_is_piece sc nodes rawways) ms ps) rels
+              scene_ok sc && contained_b sc && valid_cuts sc ps && forallb2 (member_is_piece sc nodes rawways) ms ps) rels
             && forallb (fun r => let '(_, _, _, obs) := r in
                  forallb2 (fun rel ob => let '(sc, ps, _) := rel in let '(o, _, _, _) := ob in
                              truthful_or_none o (expected_orients sc ps)) rels obs) runs in
